@@ -274,6 +274,10 @@ def corpus_cases(tier, rng):
         if not s:
             continue
         for core in (True, False):
+            # whole-molecule templates of big reactions have hundreds of raw matches (gluing every one of them in the oracle
+            # takes 30-45 s) and are outside the model's evaluated domain anyway: thorough tier only
+            if tier == "quick" and not core and rx[i].split(">>")[0].count(":") > 24:
+                continue
             for inv in (False, True):
                 out.append(dict(kind="prune", name="uspto%d/%s/%s" % (i, "core" if core else "full", "bwd" if inv else "fwd"),
                                 tpl=rx[i], core=core, sub=s[1] if inv else s[0], invert=inv, opts={}))
@@ -302,9 +306,21 @@ def corpus_cases(tier, rng):
 def gen_cases(tier, rng):
     cases = []
     # exhaustive small scopes (both tiers)
-    for n in (1, 2, 3, 4):
+    for n in (1, 2, 3):
         for k, g in enumerate(GG.iso_classes(n, GG.MOL_NODE_LABELS, GG.MOL_EDGE_LABELS)):
             cases.append(dict(kind="aut", name="iso%d#%d" % (n, k), g=g))
+    full4 = list(GG.iso_classes(4, GG.MOL_NODE_LABELS, GG.MOL_EDGE_LABELS))
+    if tier == "quick":
+        # the exact analysis sees (element, charge) and the bond order only: over that alphabet 4 nodes are exhaustive (705
+        # classes); hcount is visible to the WL estimate alone - a seeded sample of the 9291 hcount-labelled classes
+        h0 = [a for a in GG.MOL_NODE_LABELS if a.get("hcount", 0) == 0]
+        for k, g in enumerate(GG.iso_classes(4, h0, GG.MOL_EDGE_LABELS)):
+            cases.append(dict(kind="aut", name="iso4h0#%d" % k, g=g))
+        for k in rng.sample(range(len(full4)), 1500):
+            cases.append(dict(kind="aut", name="iso4#%d" % k, g=full4[k]))
+    else:
+        for k, g in enumerate(full4):
+            cases.append(dict(kind="aut", name="iso4#%d" % k, g=g))
     for k, g in enumerate(GG.iso_classes(5, NODE5, EDGE5)):
         cases.append(dict(kind="aut", name="iso5#%d" % k, g=g))
     cases.append(dict(kind="aut", name="empty", g={"nodes": [], "edges": []}))
